@@ -1087,6 +1087,9 @@ class Tifa(TifaCore, ast.NodeVisitor):
 
     def visit_FormattedValue(self, node):
         value = self.visit(node.value)
+        if node.format_spec is not None:
+            # f"{x:{width}}": the format spec is a piece of f-string itself and reads names
+            self.visit(node.format_spec)
         if isinstance(value, StrType):
             return value
         else:
